@@ -151,10 +151,14 @@ def run(ck, tier):
             L = lt["dest"][0]
             # the result may be moved into a named local
             Ls = {L}
-            for b in f.blocks:
-                for s in b["s"]:
-                    if s["k"] == "assign" and len(s["lhs"]) == 1 and s["rv"]["k"] == "use" and place_of(s["rv"]["op"]) == [L]:
-                        Ls.add(s["lhs"][0])
+            grew = True
+            while grew:
+                grew = False
+                for b in f.blocks:
+                    for s in b["s"]:
+                        if s["k"] == "assign" and len(s["lhs"]) == 1 and s["rv"]["k"] == "use" and place_of(s["rv"]["op"]) and len(place_of(s["rv"]["op"])) == 1 and place_of(s["rv"]["op"])[0] in Ls and s["lhs"][0] not in Ls:
+                            Ls.add(s["lhs"][0])
+                            grew = True
             ops = []
             for l in Ls:
                 ops += ops_on(f, pv, l)
